@@ -285,4 +285,3 @@ func Run(checkerDir string) ([]Result, error) {
 	}
 	return out, nil
 }
-
